@@ -259,6 +259,9 @@ pub fn ev(shape: u32, kind: &str, probes: &[String], addrs: &[usize]) {
 pub struct NoDbg(pub u32);
 pub struct Wr<'a>(pub &'a mut u32);
 
+/// a zero-sized value type (marker / unit struct)
+#[derive(Debug, Clone, PartialEq)]
+pub struct Unit;
 pub fn pr_u32(x: &u32) -> String { x.to_string() }
 pub fn pr_u16(x: &u16) -> String { x.to_string() }
 pub fn pr_i16(x: &i16) -> String { x.to_string() }
